@@ -54,13 +54,26 @@ def features(text: str) -> Set[str]:
                 feats.add("seq-variable-reused")
     # a projection that ignores its element but uses a variable of an ENCLOSING lambda (Select(lambda t: j.q())) feeding
     # an aggregate / First / another projection.  Projections to pure literals are deliberately not tagged.
-    def walk(node, bound):
+    AGG = {"Count", "Sum", "Min", "Max", "First", "Aggregate"}
+
+    def ignoring_select(node, bound):
         if isinstance(node, ast.Call) and isinstance(node.func, ast.Attribute) and node.func.attr == "Select" and node.args and isinstance(node.args[0], ast.Lambda):
             lam = node.args[0]
             p = lam.args.args[0].arg
             names = {x.id for x in ast.walk(lam.body) if isinstance(x, ast.Name)}
-            if p not in names and (names & bound) and not (isinstance(node.func.value, ast.Name) and node.func.value.id == "ds"):
-                feats.add("selector-ignores-element")
+            return p not in names and bool(names & bound) and not (isinstance(node.func.value, ast.Name) and node.func.value.id == "ds")
+        return False
+
+    def walk(node, bound):
+        # only where the element-ignoring projection FEEDS an aggregate / First (directly or through further Where / Select steps):
+        # filling such a projection into a list column or into rows is translated correctly and must stay checked
+        if isinstance(node, ast.Call) and isinstance(node.func, ast.Attribute) and node.func.attr in AGG:
+            cur = node.func.value
+            while isinstance(cur, ast.Call) and isinstance(cur.func, ast.Attribute) and cur.func.attr in ("Select", "Where"):
+                if ignoring_select(cur, bound):
+                    feats.add("selector-ignores-element")
+                    break
+                cur = cur.func.value
         if isinstance(node, ast.Lambda):
             b2 = bound | {a.arg for a in node.args.args}
             walk(node.body, b2)
